@@ -104,6 +104,8 @@ class Writer:
 def project(impl, c):
     """drop what the model does not predict: libc's logged answers, the number of write calls, and (kill runs) everything
     the interrupted runs printed"""
+    if c.op.startswith('ZCKDL'):      # the real tool: only the predicate judges it
+        return 'OK' if impl.startswith('OK') else impl
     toks = [t for t in impl.split(' ') if not (t.startswith('rx=') or t.startswith('rc=') or t.startswith('writes=') or t.startswith('r.writes=')
                                              or t.startswith('killed='))]
     return ' '.join(toks)
